@@ -702,6 +702,14 @@ func (b *Builder) execChangePeerV2(needEnter bool, needTransferLeader bool) {
 
 // check if the peer is allowed to become the leader.
 func (b *Builder) allowLeader(peer *metapb.Peer, ignoreClusterLimit bool) bool {
+	return b.allowLeaderFrom(peer, b.currentLeaderStoreID, ignoreClusterLimit)
+}
+
+// check if the peer is allowed to be the leader at a moment when the leader is
+// on store `from`: staying there needs no transfer, anything else is a transfer
+// target and has to pass the checks (also the store that is leader right now,
+// when the plan moves the leader away first).
+func (b *Builder) allowLeaderFrom(peer *metapb.Peer, from uint64, ignoreClusterLimit bool) bool {
 	// these peer roles are not allowed to become leader.
 	switch peer.GetRole() {
 	case metapb.PeerRole_Learner, metapb.PeerRole_DemotingVoter:
@@ -709,7 +717,7 @@ func (b *Builder) allowLeader(peer *metapb.Peer, ignoreClusterLimit bool) bool {
 	}
 
 	// store does not exist
-	if peer.GetStoreId() == b.currentLeaderStoreID {
+	if peer.GetStoreId() == from {
 		return true
 	}
 	store := b.cluster.GetStore(peer.GetStoreId())
@@ -850,7 +858,7 @@ func (b *Builder) planReplaceLeaders(best, next stepPlan) stepPlan {
 		for _, leaderBeforeRemove := range b.currentPeers.IDs() {
 			if leaderBeforeRemove != next.demote.GetStoreId() &&
 				leaderBeforeRemove != next.remove.GetStoreId() &&
-				b.allowLeader(b.currentPeers[leaderBeforeRemove], false) {
+				b.allowLeaderFrom(b.currentPeers[leaderBeforeRemove], leaderBeforeAdd, false) {
 				// leaderBeforeRemove does not select nodes to be demote or removed.
 				next.leaderBeforeRemove = leaderBeforeRemove
 				best = b.comparePlan(best, next)
